@@ -167,11 +167,11 @@ impl Relocation for Aarch64Relocation {
 
         // Sign extend.
         let bits = match self {
-            Self::B => 26,
-            Self::BCOND => 19,
+            Self::B => 28,
+            Self::BCOND => 21,
             Self::ADR => 21,
             Self::ADRP => 33,
-            Self::TBZ => 14,
+            Self::TBZ => 16,
             Self::Plain(_) => unreachable!()
         };
         let offset = 1u64 << (bits - 1);
